@@ -17,7 +17,7 @@ META = {
                    "code over a finite abstract domain). Decides: the purge-enqueue guard truth table at every writer of "
                    "State.purging_queue, consumer removal only on task completion and for every input, fetch-before-purge "
                    "and purge-every-holder in flush_queues, writers of fetching_queue / ds2host, transfer sources. "
-                   "Not decided: the temporal claim over all event interleavings.",
+                   "Later rules: a requested output is fetched once (history publish -> fetch -> transfer confirmation #0 / #7 -> flush), transfers are commanded only for an assignment's preparation list and fetches only from the fetch queue, an undecodable payload is not a delivered output. Not decided: the temporal claim over all event interleavings.",
     "assumptions": ["AnyKeyDict abstraction: the guard is evaluated for 'the dataset in question'; a guard that looks up a "
                     "different key of the same mapping is not distinguished",
                     "bridge methods are opaque effects"],
